@@ -165,6 +165,9 @@ def check(ctx, replay=None):
     for i, d in enumerate(dumps):
         if d.get("changed"):
             ctx.note("the tables of a process changed while the package was used (%d entries, e.g. %s); judged through the statement's predicates on the tables as they are afterwards" % (len(d["changed"]), d["changed"][:3]))
+    for i, d in enumerate(dumps):
+        for r in [r for r in (d.get("repeats") or []) if r["in"] not in JUNK][:6]:
+            hist.append(("a spelling resolves differently when it is looked up again in the same process: %s" % r["why"], {"repeat": r}))
     for i, d in enumerate(dumps[1:], 1):
         for a0, a1 in zip(d0["arches"], d["arches"]):
             if a0["numbers"] != a1["numbers"]:
